@@ -508,7 +508,7 @@ class MQTTProtocol(MQTTBaseProtocol):
         '''
         Assert subscribe parameters
         '''
-        if len(self.factory.windowSubscribe[self.addr]) == self._window:
+        if len(self.factory.windowSubscribe[self.addr]) >= self._window:
             raise MQTTWindowError("subscription requests exceeded limit", self._window)
         if not isinstance(request.topics, list):
             raise TopicTypeError(type(request.topics))
@@ -522,7 +522,7 @@ class MQTTProtocol(MQTTBaseProtocol):
         '''
         Assert unsubscribe parameters
         '''
-        if len(self.factory.windowUnsubscribe[self.addr]) == self._window:
+        if len(self.factory.windowUnsubscribe[self.addr]) >= self._window:
             raise MQTTWindowError("unsubscription requests exceeded limit", self._window)
         if not isinstance(request.topics, list):
             raise TopicTypeError(type(request.topics))
